@@ -140,6 +140,7 @@ type c19Case struct {
 	NetSeed uint64 `json:"net_seed"`
 	Seed    uint64 `json:"seed"`
 	Prior   bool   `json:"prior"` // the witness already holds an honest checkpoint of size 5
+	Poll    bool   `json:"poll,omitempty"` // polling mode: the feeder runs for 20 poll intervals
 }
 
 // TestC19Case runs one feeder (or distributor) cycle inside a bubble and prints how it ended. It is the
@@ -244,6 +245,24 @@ func c19Run(c c19Case) string {
 	if err != nil {
 		return "harness-error " + err.Error()
 	}
+	if c.Poll {
+		// polling mode, http client configured as cmd/omniwitness configures it (10 s overall timeout). A client without any
+		// timeout is not used: the unchanged SumDB client does not pass its context to its requests, so with such a client a
+		// stalled sum database already holds the unchanged feeder for ever - outside what the shipped binary can be configured to do
+		const interval = 30 * time.Second
+		pctx, pcancel := context.WithTimeout(context.Background(), 20*interval)
+		defer pcancel()
+		err = ff.FeedFunc()(pctx, cl, omniwitness.VerifWitnessAdapter(realW), hc, interval)
+		cycles := 0
+		for _, q := range sn.Requests() {
+			path, _, _ := strings.Cut(q.Path, "?")
+			switch path {
+			case "/latest", "/checkpoint", "/checkpoint.txt", "/api/v1/log":
+				cycles++
+			}
+		}
+		return fmt.Sprintf("ended err=%v cycles=%d", err != nil, cycles)
+	}
 	err = ff.FeedFunc()(ctx, cl, omniwitness.VerifWitnessAdapter(realW), hc, 0)
 	return fmt.Sprintf("ended err=%v", err != nil)
 }
@@ -271,8 +290,9 @@ func c19Spawn(c c19Case, wall time.Duration) c19Outcome {
 	select {
 	case err := <-done:
 		outS := so.String()
-		if strings.Contains(outS, "RESULT ended") && err == nil {
-			return c19Outcome{"ended", ""}
+		if i := strings.Index(outS, "RESULT ended"); i >= 0 && err == nil {
+			line, _, _ := strings.Cut(outS[i:], "\n")
+			return c19Outcome{"ended", line}
 		}
 		if strings.Contains(outS, "panic:") || strings.Contains(outS, "fatal error:") || strings.Contains(outS, "[recovered") {
 			if len(outS) > 3000 {
@@ -327,6 +347,11 @@ func init() {
 			if r.Chance(0.1) {
 				c.Prior = false
 			}
+			if c.Feeder != "distributor" && r.Chance(0.25) {
+				// polling mode against a log that answers, but slowly or never, on some requests
+				c.Poll, c.Size, c.Root, c.Prior = true, "normal", 32, true
+				c.Net = Pick(r, "stall", "stall", "stall", "delay:45000", "status:500", "trunc:7")
+			}
 			js, _ := json.Marshal(c)
 			p.Cfg.Notes["case"] = string(js)
 			return p
@@ -364,6 +389,19 @@ func init() {
 				}
 				if c.Size != "normal" || c.Root != 32 || c.Net != "" {
 					out.Distinct = []string{fmt.Sprintf("%s/%s/%d/%s/%s", c.Feeder, sizeClass, c.Root, strings.SplitN(c.Net, ":", 2)[0], o.kind)}
+				}
+				if c.Poll && o.kind == "ended" {
+					cycles := -1
+					if i := strings.Index(o.detail, "cycles="); i >= 0 {
+						fmt.Sscanf(o.detail[i:], "cycles=%d", &cycles)
+					}
+					out.Stats.Probes["polling_cases"]++
+					out.Stats.Probes[fmt.Sprintf("polling_cycles_%02d", cycles)]++
+					if cycles < 8 {
+						// every cycle is bounded by the poll interval, so 20 intervals see close to 20 cycles start; a request the per-cycle
+						// timeout does not reach holds its cycle (and all later ones) up
+						out.Viol = []Violation{{Class: "hang", Sig: fmt.Sprintf("hang/cycle_outlives_its_timeout/feeder=%s", c.Feeder), Detail: fmt.Sprintf("%s feeder polling every 30s for 20 intervals against a log with fault %q on a third of its responses (http client timeout 10s): only %d cycles started - cycles hang beyond their timeouts or polling has slowed down for good", c.Feeder, c.Net, cycles)}}
+					}
 				}
 				switch o.kind {
 				case "hang":
